@@ -335,6 +335,12 @@ def run_coq_cases(pid: str, preamble: str, terms: list[tuple[int, str]], shard=2
     def one(item):
         fn, ids = item
         rc, out = coqc(fn, timeout=timeout)
+        tries = 0
+        # a coqc killed from outside (OOM killer under load) leaves no Coq error message: retry
+        while rc != 0 and "Error" not in out and tries < 2:
+            time.sleep(5 + 10 * tries)
+            tries += 1
+            rc, out = coqc(fn, timeout=timeout)
         return fn, ids, rc, out
 
     with ThreadPoolExecutor(max_workers=NPROC) as ex:
@@ -470,6 +476,9 @@ def run_check(driver: Driver, argv=None):
     ap.add_argument("--skip-proofs", action="store_true", help="developer option; never used by MANIFEST commands")
     args = ap.parse_args(argv)
     pid = driver.pid
+    BUILD.mkdir(exist_ok=True)
+    _runlock = open(BUILD / f".{pid}{ALT_TAG}.run.lock", "w")   # runs of one property on one tree share build/<pid>
+    fcntl.flock(_runlock, fcntl.LOCK_EX)
     t0 = time.time()
     import agilerl  # the implementation under test must be the tree the check was pointed at
     assert Path(agilerl.__file__).resolve().is_relative_to(REPO), (agilerl.__file__, REPO)
